@@ -292,6 +292,48 @@ def koyama_params(p):
     return s, l, lp_min * min(0.999, 1.0 / p['lp_f'] + 0.4), False
 
 
+# --------------------------------------------------------------------------- independent moments of the discrete wormlike chain
+
+def koyama_angle_moments(sigma, l, lp):
+    """<cos>, <cos^2> of the bond-angle distribution of the model: weight exp(-eps x) for x = cos(theta) in [-1, 1 - sigma^2/(2 l^2)]
+    (two-bond overlaps excluded), eps fixed by the documented relation <cos> = l/lp - 1.  Quadrature + bracketing root finder:
+    nothing of the class's closed forms is used."""
+    from scipy.integrate import quad
+    from scipy.optimize import brentq
+    c0 = 1.0 - sigma * sigma / (2.0 * l * l)
+    c1 = l / lp - 1.0
+
+    def mom(eps):
+        ref = -1.0 if eps >= 0 else c0
+        w = lambda x: math.exp(-eps * (x - ref))
+        z = quad(w, -1.0, c0, epsabs=0, epsrel=1e-13, limit=200)[0]
+        return (quad(lambda x: x * w(x), -1.0, c0, epsabs=0, epsrel=1e-13, limit=200)[0] / z,
+                quad(lambda x: x * x * w(x), -1.0, c0, epsabs=0, epsrel=1e-13, limit=200)[0] / z)
+    f = lambda e: mom(e)[0] - c1
+    lo, hi = -1.0, 1.0
+    while f(hi) > 0 and hi < 1e4:
+        hi *= 2
+    while f(lo) < 0 and lo > -1e4:
+        lo *= 2
+    eps = brentq(f, lo, hi, xtol=1e-14, rtol=1e-14)
+    return c1, mom(eps)[1], eps
+
+
+def koyama_chain_moments(l, q, m2, N):
+    """exact <r_n^2>, <r_n^4> for n = 1 .. N-1 bonds of length l with independent bond angles and uniform torsions, q = <u.u'>,
+    m2 = <(u.u')^2>: recursion for a = <r^2>, b = <R.u>, c = <(R.u)^2>, d = <r^2 R.u>, e = <r^4> under R' = R + l u', using the
+    azimuthal averages <V.u'> = q V.u and <(V.u')^2> = m2 (V.u)^2 + (1-m2)/2 (V^2 - (V.u)^2)"""
+    a, b, c, d, e = l * l, l, l * l, l ** 3, l ** 4
+    out = {1: (a, e)}
+    for n in range(2, N):
+        X = m2 * c + 0.5 * (1.0 - m2) * (a - c)
+        a, b, c, d, e = (a + 2 * l * q * b + l * l, q * b + l, X + 2 * l * q * b + l * l,
+                         q * d + l * a + 2 * l * X + 3 * l * l * q * b + l ** 3,
+                         e + 4 * l * l * X + l ** 4 + 4 * l * q * d + 2 * l * l * a + 4 * l ** 3 * q * b)
+        out[n] = (a, e)
+    return out
+
+
 class Koyama(Sub):
     name = 'koyama'
     doc = 'DiscreteKoyama: rejection rule, evaluability, pair-sum over N sites, limits, curvature, rigid bond, independence, scaling'
@@ -360,6 +402,28 @@ class Koyama(Sub):
             return out
         if np.any(om > N * (1 + 1e-12)):
             out.fail(sig + 'exceeds-N', 'omega exceeds N')
+        # the moments behind the kernel, from first principles (see koyama_chain_moments): the object's <r^2>, <r^4>, <cos^2>
+        if hasattr(om_obj, 'kernel_base') and hasattr(om_obj, 'cos2'):
+            try:
+                c1_own, c2_own, eps_own = koyama_angle_moments(s, l, lp)
+            except Exception:   # noqa -- the bracketing failed (extreme stiffness): not judged
+                c1_own = None
+                out.label('angle-moments-not-bracketed')
+            if c1_own is not None:
+                if abs(float(om_obj.cos2) - c2_own) > (2e-5 if regime == 'lp~lp_min' else 2e-7) * max(abs(c2_own), 1e-3):
+                    out.fail(sig + 'bond-angle-second-moment', 'DiscreteKoyama(sigma=%r,l=%r,lp=%r): <cos^2> = %r, quadrature of the bond-angle distribution gives %r' % (
+                        s, l, lp, float(om_obj.cos2), c2_own))
+                mom = koyama_chain_moments(l, -c1_own, c2_own, N)
+                for n in range(1, N):
+                    r2o, r4o = om_obj.kernel_base(n)
+                    a_, e_ = mom[n]
+                    # the published closed form of <r^4> adds terms of size (1-q)^-4 (q = 1 - l/lp): its round-off grows like that
+                    tol4 = 5e-6 + 2000 * EPS * (lp / l) ** 4
+                    if abs(r2o - a_) > 1e-10 * a_ or abs(r4o - e_) > tol4 * e_:
+                        out.fail(sig + 'chain-moments', 'DiscreteKoyama(sigma=%r,l=%r,lp=%r): <r^2>,<r^4> of %d bonds = %r, %r; exact recursion for independent bond angles gives %r, %r' % (
+                            s, l, lp, n, float(r2o), float(r4o), a_, e_))
+                        break
+                out.label('moments-judged')
         # rigid bond: w_1(k) = sin(kl)/(kl) for every lp
         if N >= 2:
             w1 = kern[1]
